@@ -111,6 +111,11 @@ func (g *gen) jquery() (J, J) {
 		}
 		at, aj = append(at, qt), append(aj, qj)
 	}
+	if g.r.Intn(3) == 0 {
+		// a script over bindings of which only some bind its variable: it throws (ReferenceError)
+		// for the others, and a condition whose script throws for any binding is an error
+		at, aj = append(at, J{"t": "code", "kind": "xeq1"}), append(aj, J{"code": codeSrc["xeq1"]})
+	}
 	return J{"t": "and", "qs": at}, J{"and": aj}
 }
 
